@@ -826,9 +826,21 @@ theorem refine_lorentz_transform4D_signed' (k0 : Az) (k1 : Lon) (k2 : Tmp)
     lorentz_transform4D_ret_eq, interp4_same]
   rfl
 
-/-- in particular a boost matrix applied through `transform4D` to a space-like τ-stored vector yields the NEGATIVE boosted
-time that the τ-passing `boostX_beta` cannot represent (compare `lorentz_boostX_beta_spacelike_negative_time`) -/
 example : TanOK .z 0 ∧ SinOK .z 0 ∧ CanonTmpS .xy .z .tau 3 0 0 (-2) := ⟨trivial, trivial, ex2_canon⟩
+
+/-- in particular the boost matrix `γ = 5/3, βγ = −4/3` applied through `transform4D` to the space-like τ-stored point
+`(3, 0, 0, τ = −2)` yields the NEGATIVE boosted time `t' = (5√5 − 12)/3` that the τ-passing `boostX_beta` cannot represent
+(compare `lorentz_boostX_beta_spacelike_negative_time`) -/
+example : (lorentz_transform4D.eval .xy .z .tau (5 / 3) 0 0 (-4 / 3) 0 1 0 0 0 0 1 0 (-4 / 3) 0 0 (5 / 3) 3 0 0 (-2)).2.2.2
+      = (5 * sqrt 5 - 12) / 3
+    ∧ (5 * sqrt 5 - 12) / 3 < 0 := by
+  rw [lorentz_transform4D_eval_signed .xy .z .tau _ _ _ _ _ _ _ _ _ _ _ _ _ _ _ _ 3 0 0 (-2) trivial trivial ex2_canon]
+  simp only [transform4, cart4S, xOf, yOf, zOf, ex2_t]
+  have h5 : sqrt 5 < 12 / 5 := by
+    rw [sqrt_lt' (by norm_num)]; norm_num
+  constructor
+  · ring
+  · linarith
 
 /-! ### (5) to_beta3, deltaRapidityPhi2, deltaRapidityPhi -/
 
